@@ -94,6 +94,53 @@ def run_instance(case, part):
                             dict(case, context="parse(dict)", selector=sel, marking=mk[0]), gfeat, "gm:")
 
 
+def run_ts_sweep(case, part):
+    """every fraction of the given digit count (stride as stated) in one timestamp property: accepted, and the instant is preserved to the digit"""
+    env.reset()
+    version, key, prop, digits = case["version"], case["key"], case["prop"], case["digits"]
+    g = gen.Gen(version)
+    base = g.minimal(key)
+    for n in range(case["lo"], case["hi"], case["stride"]):
+        frac = "%0*d" % (digits, n)
+        ts = "2016-05-12T08:17:27.%sZ" % frac
+        inst = copy.deepcopy(base)
+        for pn in prop.split("+"):
+            inst[pn] = ts
+        if n == case["lo"] and model.validate(inst, version):
+            raise RuntimeError("sweep instance rejected by the frozen validator: %r" % model.validate(inst, version)[:1])
+        check_parse(part, lambda inst=inst: copy.deepcopy(inst), (), inst, version, key, dict(case, lo=n, hi=n + 1, context="parse(dict)"), "timestamp-fraction-sweep/%d-digits" % digits, "sweep:")
+        if n % 10 == 0:
+            check_parse(part, lambda inst=inst: json.dumps(inst), (), inst, version, key, dict(case, lo=n, hi=n + 1, context="parse(text)"), "timestamp-fraction-sweep/%d-digits" % digits, "sweep:")
+
+
+def run_granular_extra(case, part):
+    """granular-marking selectors whose textual order differs from the walk order of the content: list indices >= 10, sibling keys K and K-suffix"""
+    env.reset()
+    version, which = case["version"], case["which"]
+    g = gen.Gen(version)
+    if which == "long-lists":
+        w = g.minimal("objects:identity")
+        w["labels"] = ["l%02d" % i for i in range(12)]
+        w["external_references"] = [{"source_name": "s%02d" % i, "url": "https://e.x/%d" % i} for i in range(11)]
+    elif which == "prefix-keys":
+        w = g.minimal("objects:language-content")
+        w["contents"] = {"de": {"name": "n", "description": "d"}, "de-ch": {"name": "n2"}, "de-ch-1901": {"name": "n3"}, "fr": {"name": "n4"}}
+    else:
+        w = g.minimal("observables:file")
+        w["extensions"] = {"windows-pebinary-ext": {"pe_type": "exe", "sections": [{"name": "s%02d" % i, "size": i} for i in range(12)]}}
+    errs = model.validate(w, version)
+    if errs:
+        raise RuntimeError("extra granular base rejected by the frozen validator: %r" % errs[:2])
+    key = model.spec(version).key_for_type(w["type"])
+    for sel, val, feats in harness.selector_paths(w):
+        if sel.split(".")[0] == "granular_markings":
+            continue
+        w2 = copy.deepcopy(w)
+        w2["granular_markings"] = [{"marking_ref": MREF, "selectors": [sel]}]
+        f2 = sorted(feats | ({"index>=10"} if any(st.startswith("[") and len(st) > 3 for st in sel.split(".")) else set()) | ({"key-extends-sibling-key"} if "de-ch" in sel else set()))
+        check_parse(part, lambda w2=w2: copy.deepcopy(w2), (), w2, version, key, dict(case, context="parse(dict)", selector=sel), "granular-marking-selector/" + ("+".join(f2) if f2 else "plain"), "gm:")
+
+
 def check_parse(part, make, loc, inst, version, key, case, feat, prefix):
     import stix2
     part.evaluations += 1
@@ -118,8 +165,16 @@ def check_parse(part, make, loc, inst, version, key, case, feat, prefix):
         part.violation("C03/content/%s/%s" % (kind, feat if kind != "added" else "property=" + p), "re-serialization does not reproduce the input content", dict(case, path=path), exp, obs)
 
 
+def run_any(case, part):
+    if case.get("kind") == "ts-sweep":
+        return run_ts_sweep(case, part)
+    if case.get("kind") == "granular-extra":
+        return run_granular_extra(case, part)
+    return run_instance(case, part)
+
+
 def replay(case, part):
-    run_instance(case, part)
+    run_any({k: v for k, v in case.items() if k not in ("context", "selector", "path", "marking")}, part)
 
 
 def run(run):
@@ -135,12 +190,21 @@ def run(run):
             cases.append(c)
     run.mode = "DEV"
     run.rule = ("valid instances from the frozen spec model: per type minimal, maximal, minimal + each optional property x every value of its alphabet%s, each extension; "
-                "x 3-4 entry contexts; + one granular-marking variant per addressable path of every minimal/maximal instance; states = distinct accepted serializations"
-                % (", all pairs of optional properties" if th else ""))
+                "x 3-4 entry contexts; + one granular-marking variant per addressable path of every minimal/maximal instance (and of bases with >= 11 list elements / keys extending a sibling key); "
+                "+ every 4-digit, every %s 5-digit and every %s 6-digit second fraction in 4 timestamp properties; states = distinct accepted serializations"
+                % (", all pairs of optional properties" if th else "", "" if th else "7th", "7th" if th else "61st"))
     run.bound = {"deviations": 2 if th else 1, "instances": len(cases), "versions": ["2.0", "2.1"]}
     run.assumptions += ["frozen spec model mc/spec/stix2x.json + mc/spec/model.py (bootstrapped once, audited by hand; only unambiguously valid content is generated)",
                         "pattern validity delegated to the third-party stix2patterns validator"]
-    run.pmap(run_instance, cases)
+    for version, key, prop in (("2.1", "objects:identity", "created+modified"), ("2.1", "objects:campaign", "first_seen"), ("2.0", "objects:campaign", "first_seen"), ("2.0", "objects:indicator", "valid_from")):
+        for digits, stride in ((4, 1), (5, 1 if th else 7), (6, 7 if th else 61)):
+            total = 10 ** digits
+            step = max(stride, (total // 64 // stride) * stride)
+            for lo in range(0, total, step):
+                cases.append({"kind": "ts-sweep", "version": version, "key": key, "prop": prop, "digits": digits, "stride": stride, "lo": lo, "hi": min(lo + step, total)})
+    for version, which in (("2.0", "long-lists"), ("2.1", "long-lists"), ("2.1", "prefix-keys"), ("2.1", "long-nested-list")):
+        cases.append({"kind": "granular-extra", "version": version, "which": which})
+    run.pmap(run_any, cases)
     run.part.sample({"version": "2.1", "key": "observables:network-traffic", "label": "min+end#2", "instance": "minimal network-traffic + end='2017-05-12T08:17:27.5Z' (+ is_active=false)"})
     run.part.sample({"version": "2.0", "key": "observables:file", "label": "max", "context": "member '0' of an observed-data container with its referenced members"})
     run.part.sample({"version": "2.1", "key": "objects:malware", "label": "max", "selector": "kill_chain_phases.[0].phase_name", "marking": "marking_ref"})
